@@ -47,8 +47,17 @@ INVALID = {
 def invalid_cases(draw):
     which = draw(st.sampled_from(sorted(INVALID)))
     d = draw(st.integers(1, 3))
+    # a random VALID value for every other option: an invalid value must be rejected whatever it is combined with
     base = {"sample": draw(st.sampled_from(["tpcn", "rwm"])), "resample": draw(st.sampled_from(["mult", "syst"])),
-            "clustering": draw(st.booleans()), "ess_ratio": draw(st.sampled_from([1.0, 2.0])), "n_particles": draw(st.sampled_from([8, 32]))}
+            "clustering": draw(st.booleans()), "ess_ratio": draw(st.sampled_from([1.0, 2.0, 0.5])), "n_particles": draw(st.sampled_from([8, 32])),
+            "volume_variation": draw(st.sampled_from([None, None, 0.3, 2.0])), "normalize": draw(st.booleans()),
+            "cluster_every": draw(st.sampled_from([1, 3])), "split_threshold": draw(st.sampled_from([1.0, 0.3])),
+            "n_max_clusters": draw(st.sampled_from([None, 2])), "n_steps": draw(st.sampled_from([None, 2])),
+            "n_max_steps": draw(st.sampled_from([None, 7])), "pool": draw(st.sampled_from([None, 1, 2])),
+            "random_state": draw(st.sampled_from([None, 7]))}
+    bsel = draw(st.sampled_from(["none", "periodic", "reflective"]))
+    if bsel != "none":
+        base[bsel] = [draw(st.integers(0, d - 1))]
     v = INVALID[which]
     if which in ("periodic", "reflective"):
         bad = draw(st.sampled_from([[-1], [d], [d + 3], [0.5], ["0"], [0, d], [-2, 0]]))
@@ -74,7 +83,7 @@ def exec_invalid(case):
     if w == "vectorize+blobs":
         kw["vectorize"], kw["blobs_dtype"] = True, "float"
     elif w == "overlap":
-        kw["periodic"], kw["reflective"] = [v], [v]
+        kw["periodic"], kw["reflective"] = sorted(set(kw.get("periodic") or []) | {v}), sorted(set(kw.get("reflective") or []) | {v})
     elif w in ("periodic", "reflective"):
         kw[w] = list(v)
     else:
